@@ -12,7 +12,10 @@ import (
 	"strings"
 	gotime "time"
 
+	"google.golang.org/protobuf/proto"
+
 	"github.com/yorkie-team/yorkie/api/types"
+	api "github.com/yorkie-team/yorkie/api/yorkie/v1"
 	"github.com/yorkie-team/yorkie/client"
 	"github.com/yorkie-team/yorkie/pkg/document"
 	"github.com/yorkie-team/yorkie/pkg/document/crdt"
@@ -72,6 +75,18 @@ type Config struct {
 	NoPresence bool `json:"nopresence,omitempty"`
 	// ColdCache: purge the snapshot cache before every request.
 	ColdCache bool `json:"coldcache,omitempty"`
+	// OptOut lists roles that attach with client.WithDisableGC().
+	OptOut []int `json:"optout,omitempty"`
+}
+
+// IsOptOut reports whether the role attaches with disable_gc.
+func (c Config) IsOptOut(role int) bool {
+	for _, r := range c.OptOut {
+		if r == role {
+			return true
+		}
+	}
+	return false
 }
 
 // Replica is one client + document.
@@ -117,7 +132,52 @@ type Exec struct {
 	cancel   context.CancelFunc
 	// Counters for anti-vacuity.
 	SnapshotsPulled int
-	valCounter      int
+	// Purged counts nodes garbage-collected on replicas during syncs.
+	Purged     int
+	valCounter int
+	// OnRPC observes every change-pack carrying RPC of this execution.
+	OnRPC func(rpc *RPC)
+	// KeepRaw keeps raw request/response bytes in RPC.
+	KeepRaw bool
+	// Data is scratch space for observers.
+	Data map[string]any
+	// Created records, for every locally created change, what its author had
+	// applied at creation time.
+	Created []CreatedRec
+	// ReqVV is each replica's Document.VersionVector() right before its last request.
+	ReqVV map[int]time.VersionVector
+}
+
+// CreatedRec describes one locally created change.
+type CreatedRec struct {
+	Role      int
+	ClientSeq uint32
+	// CpServerSeq: every change with serverSeq <= this had been applied.
+	CpServerSeq int64
+}
+
+// RoleOf maps a hex client id to a role (-1 if unknown).
+func (x *Exec) RoleOf(clientID string) int {
+	for _, rep := range x.Reps {
+		if rep.Cli.ID().String() == clientID {
+			return rep.Role
+		}
+	}
+	return -1
+}
+
+func (x *Exec) recordCreated(rep *Replica, before int, cp int64) {
+	cs := rep.Doc.CreateChangePack().Changes
+	for _, c := range cs[min(before, len(cs)):] {
+		x.Created = append(x.Created, CreatedRec{Role: rep.Role, ClientSeq: c.ClientSeq(), CpServerSeq: cp})
+	}
+}
+
+func (x *Exec) noteReqVV(rep *Replica) {
+	if x.ReqVV == nil {
+		x.ReqVV = map[int]time.VersionVector{}
+	}
+	x.ReqVV[rep.Role] = rep.Doc.VersionVector().DeepCopy()
 }
 
 // Runner owns a world and runs executions on it.
@@ -130,6 +190,10 @@ type Runner struct {
 	MaxExecs   int
 	// Trace, when set, receives a line per step (debugging / replay output).
 	Trace io.Writer
+	cur   *Exec
+	// Prepare, when set, is called on the fresh Exec before anything runs (to
+	// install OnRPC etc.).
+	Prepare func(x *Exec)
 }
 
 func (x *Exec) trace(label string, err error) {
@@ -184,7 +248,75 @@ func NewRunner() (*Runner, error) {
 	if err != nil {
 		return nil, err
 	}
-	return &Runner{W: w, projects: map[[2]int64]*types.Project{}, MaxExecs: 400}, nil
+	r := &Runner{W: w, projects: map[[2]int64]*types.Project{}, MaxExecs: 400}
+	r.installObserver()
+	return r, nil
+}
+
+// RPC is one observed unary call.
+type RPC struct {
+	Proc     string // AttachDocument, PushPullChanges, DetachDocument, ...
+	ClientID string
+	Status   int
+	Req    *api.ChangePack // request change pack (nil if none)
+	Resp   *api.ChangePack // response change pack (nil on error)
+	ReqRaw []byte
+	ResRaw []byte
+}
+
+func (r *Runner) installObserver() {
+	r.W.Transport.Observe = func(path string, reqBody []byte, status int, respBody []byte) {
+		x := r.cur
+		if x == nil {
+			return
+		}
+		i := strings.LastIndexByte(path, '/')
+		proc := path[i+1:]
+		rpc := &RPC{Proc: proc, Status: status}
+		if x.KeepRaw {
+			rpc.ReqRaw, rpc.ResRaw = reqBody, respBody
+		}
+		switch proc {
+		case "PushPullChanges":
+			var q api.PushPullChangesRequest
+			var p api.PushPullChangesResponse
+			if proto.Unmarshal(reqBody, &q) == nil {
+				rpc.Req = q.ChangePack
+				rpc.ClientID = q.ClientId
+			}
+			if status == 200 && proto.Unmarshal(respBody, &p) == nil {
+				rpc.Resp = p.ChangePack
+			}
+		case "AttachDocument":
+			var q api.AttachDocumentRequest
+			var p api.AttachDocumentResponse
+			if proto.Unmarshal(reqBody, &q) == nil {
+				rpc.Req = q.ChangePack
+				rpc.ClientID = q.ClientId
+			}
+			if status == 200 && proto.Unmarshal(respBody, &p) == nil {
+				rpc.Resp = p.ChangePack
+			}
+		case "DetachDocument":
+			var q api.DetachDocumentRequest
+			var p api.DetachDocumentResponse
+			if proto.Unmarshal(reqBody, &q) == nil {
+				rpc.Req = q.ChangePack
+				rpc.ClientID = q.ClientId
+			}
+			if status == 200 && proto.Unmarshal(respBody, &p) == nil {
+				rpc.Resp = p.ChangePack
+			}
+		default:
+			return
+		}
+		if rpc.Resp != nil && len(rpc.Resp.Snapshot) > 0 {
+			x.SnapshotsPulled++
+		}
+		if x.OnRPC != nil {
+			x.OnRPC(rpc)
+		}
+	}
 }
 
 // Recycle replaces the world when it has served many executions.
@@ -201,6 +333,7 @@ func (r *Runner) Recycle() error {
 	r.W = w
 	r.projects = map[[2]int64]*types.Project{}
 	r.Execs = 0
+	r.installObserver()
 	return nil
 }
 
@@ -259,12 +392,19 @@ func (x *Exec) attach(rep *Replica) error {
 	} else if x.Sc != nil && x.Sc.InitialPresence {
 		opts = append(opts, client.WithPresence(presence.Data{"k1": fmt.Sprintf("init%d", rep.Role)}))
 	}
+	if x.Cfg.IsOptOut(rep.Role) {
+		opts = append(opts, client.WithDisableGC())
+	}
+	x.noteReqVV(rep)
 	if err := rep.Cli.Attach(x.ctx, rep.Doc, opts...); err != nil {
 		return err
 	}
 	rep.Attached = true
 	return nil
 }
+
+// Guard is guard for other packages.
+func Guard(f func() error) (error, bool) { return guard(f) }
 
 // guard runs f, converting a panic into an error string with stack.
 func guard(f func() error) (err error, panicked bool) {
@@ -281,8 +421,12 @@ func guard(f func() error) (err error, panicked bool) {
 // closure. The returned Exec is live (replicas can be inspected) until Close.
 func (r *Runner) Run(sc *Scenario, cfg Config, h []Event) *Exec {
 	r.Execs++
-	x := &Exec{Sc: sc, Cfg: cfg, Hist: h, R: r}
+	x := &Exec{Sc: sc, Cfg: cfg, Hist: h, R: r, Data: map[string]any{}}
 	x.ctx, x.cancel = context.WithCancel(context.Background())
+	r.cur = x
+	if r.Prepare != nil {
+		r.Prepare(x)
+	}
 	p, err := r.project(cfg.Threshold, cfg.Interval)
 	if err != nil {
 		x.violate("harness", "harness", err.Error())
@@ -384,11 +528,18 @@ func (x *Exec) step(e Event) Step {
 	var panicked bool
 	switch e.K {
 	case "e":
+		if !rep.Attached {
+			// edits on a replica that is not attached are outside the explored space
+			st.NoEffect = true
+			break
+		}
 		before := len(rep.Doc.CreateChangePack().Changes)
+		cp := rep.Doc.Checkpoint().ServerSeq
 		err, panicked = guard(func() error { return x.edit(rep, e.Op) })
 		if err == nil && len(rep.Doc.CreateChangePack().Changes) == before {
 			st.NoEffect = true
 		}
+		x.recordCreated(rep, before, cp)
 		if err != nil && !panicked {
 			x.violate("edit-error", "edit-error:"+e.Op, err.Error())
 		}
@@ -469,12 +620,15 @@ func (x *Exec) step(e Event) Step {
 			st.NoEffect = true
 			break
 		}
+		ubefore := len(rep.Doc.CreateChangePack().Changes)
+		ucp := rep.Doc.Checkpoint().ServerSeq
 		err, panicked = guard(func() error {
 			if e.K == "un" {
 				return rep.Doc.Undo()
 			}
 			return rep.Doc.Redo()
 		})
+		x.recordCreated(rep, ubefore, ucp)
 		if err != nil && !panicked {
 			x.violate("undo-error", e.K+"-error:"+NormErr(err.Error()), fmt.Sprintf("client %d: %v", e.C, err))
 		}
@@ -540,10 +694,13 @@ func (x *Exec) edit(rep *Replica, opName string) error {
 }
 
 func (x *Exec) sync(rep *Replica) error {
-	hadSnapshotCP := rep.Doc.Checkpoint()
-	_ = hadSnapshotCP
+	g0 := rep.Doc.GarbageLen()
+	x.noteReqVV(rep)
 	err := rep.Cli.Sync(x.ctx, client.WithKey(x.DocKey))
 	x.R.W.WaitBackground()
+	if g1 := rep.Doc.GarbageLen(); g1 < g0 {
+		x.Purged += g0 - g1
+	}
 	return err
 }
 
